@@ -9,9 +9,15 @@ substitutions (model not required, unknown code, known event), payload sizes
 the handlers check, jumbo flag removed) and decides the verdict of each with
 the acceptance function Judge + the reference semantics of the emulator
 (EmuFull.StepAll); the property layer (TruncAlwaysRejected, ...) is checked
-as invariants on the family and a negative configuration (acceptance
-function that does not require the threads to be dead / that ignores clock
-order) must be refuted.
+as invariants on the family and three negative configurations (acceptance
+functions that do not require the threads to be dead / ignore the clock order
+inside a stream / silently drop a trailing fragment) must be refuted.
+
+When the build tree of /repo with the traces of its own test-suite is around
+(optional), a few of those traces (written by the real runtime) are used as
+additional OPAQUE seeds for the byte-level corruptions: CorruptBytes.tla gets
+their decoded shape (offsets, sizes, clock order, which events are OHe) and
+decides truncations, header bytes, swaps and decreasing clocks.
 
 Conformance: the seeds are materialised byte for byte from the exported
 abstract traces (the sizes are asserted against the ones the specification
@@ -32,7 +38,9 @@ from vlib import core, obs, emu
 NEG = [("Corrupt_Neg.cfg", "TruncAlwaysRejected",
         "acceptance function that does not require every thread to be dead at the end"),
        ("Corrupt_NegClock.cfg", "SwapAlwaysRejected",
-        "acceptance function that ignores the clock order inside a stream")]
+        "acceptance function that ignores the clock order inside a stream"),
+       ("Corrupt_NegFrag.cfg", "TruncAlwaysRejected",
+        "acceptance function that silently drops a trailing fragment")]
 
 
 # --------------------------------------------------------------------------
@@ -173,11 +181,11 @@ def corrupt(seed, c):
     return files
 
 
-def run_case(bdir, seed, c):
+def run_files(bdir, files):
+    """write the trace (list of (relative dir, stream.obs, stream.json)) and run ovniemu -l on it"""
     d = core.mkscratch("c12")
     try:
         td = os.path.join(d, "ovni")
-        files = corrupt(seed, c)
         for rel, data, js in files:
             sd = os.path.join(td, rel)
             os.makedirs(sd)
@@ -185,10 +193,43 @@ def run_case(bdir, seed, c):
                 f.write(data)
             with open(os.path.join(sd, "stream.json"), "wb") as f:
                 f.write(js)
-        r = emu.ovniemu(bdir, td, ("-l",), timeout=60)
-        return r, files
+        return emu.ovniemu(bdir, td, ("-l",), timeout=120)
     finally:
         shutil.rmtree(d, ignore_errors=True)
+
+
+def run_case(bdir, seed, c):
+    files = corrupt(seed, c)
+    return run_files(bdir, files), files
+
+
+def compare(ck, what, exp, er, sig, bundle):
+    """the verdict of the specification against the run of the emulator; bundle() builds the replay bundle.
+    Returns True when they agree."""
+    if er.signal or er.timeout or er.sanitizer:
+        ck.violation("ovniemu %s on a corrupted trace (%s); expected verdict %s\n%s"
+                     % (er.verdict, what, exp, "\n".join(er.last_errors(3))), bundle(), sig=sig + ":crash")
+        return False
+    if exp == "reject":
+        if er.finished_ok or er.rc != 1:
+            ck.violation("invalid trace not rejected (%s): ovniemu -l verdict '%s' (exit status %s%s), the "
+                         "specification says reject"
+                         % (what, er.verdict, er.rc, ", printed 'emulation finished ok'" if er.finished_ok else ""),
+                         bundle(), sig=sig)
+            return False
+    elif exp == "ok":
+        if not er.accepted:
+            ck.violation("trace that is still valid after the change was refused (%s): ovniemu -l verdict '%s'\n%s"
+                         % (what, er.verdict, "\n".join(er.last_errors(3))), bundle(), sig=sig + ":refused")
+            return False
+    elif exp == "unspecified":
+        if er.rc not in (0, 1) or (er.rc == 0) != er.finished_ok:
+            ck.violation("ovniemu ended with %s on a corrupted trace (%s)" % (er.verdict, what), bundle(),
+                         sig=sig + ":exit")
+            return False
+    else:
+        raise core.MachineryError("unknown verdict %r exported by the specification" % exp)
+    return True
 
 
 def describe(c):
@@ -280,6 +321,14 @@ class SuiteTrace:
                              "ranks": [rank[e["clock"]] for e in st["evs"]],
                              "ends": [1 if e["mcv"] == "OHe" else 0 for e in st["evs"]]} for st in self.streams]}
 
+    def describe(self, c):
+        st = self.streams[c["stream"] - 1]
+        if c["kind"] == "hdr":
+            return describe(dict(c, q=(st["data"][c["p"]] + c["q"]) % 256))
+        if c["kind"] == "clock":
+            return describe(dict(c, q=st["evs"][c["p"] - 2]["clock"] - 1))
+        return describe(c)
+
     def files(self, c=None):
         out = []
         for i, st in enumerate(self.streams):
@@ -303,22 +352,6 @@ class SuiteTrace:
                     raise core.MachineryError("unknown byte corruption %r" % k)
             out.append((st["rel"], data, st["json"]))
         return out
-
-
-def run_files(bdir, files):
-    d = core.mkscratch("c12")
-    try:
-        td = os.path.join(d, "ovni")
-        for rel, data, js in files:
-            sd = os.path.join(td, rel)
-            os.makedirs(sd)
-            with open(os.path.join(sd, "stream.obs"), "wb") as f:
-                f.write(data)
-            with open(os.path.join(sd, "stream.json"), "wb") as f:
-                f.write(js)
-        return emu.ovniemu(bdir, td, ("-l",), timeout=60)
-    finally:
-        shutil.rmtree(d, ignore_errors=True)
 
 
 SUITE_QUICK = 4
@@ -377,8 +410,9 @@ def main(pid, tier):
     core.tlc_expect_ok(r, cfg)
     ck.add_tlc(r, "Corrupt/%s (every single corruption of the seed traces, one behaviour each)" % cfg)
     if r.violated:
-        ck.violation("the corruption family violates %s: the acceptance function of the specification and the "
-                     "property layer disagree" % r.violated, {"tlc.out": r.out[-20000:]}, sig="c12:spec")
+        # the specification does not depend on /repo: an inconsistency between its property layer and its
+        # acceptance function is a defect of the machinery
+        raise core.MachineryError("Corrupt.tla: the corruption family violates %s\n%s" % (r.violated, r.out[-3000:]))
     for (ncfg, inv, what), rn in zip(NEG, rs[1:1 + len(NEG)]):
         core.tlc_expect_ok(rn, ncfg)
         ck.add_tlc(rn, "Corrupt/%s (negative: %s)" % (ncfg, what))
@@ -393,7 +427,7 @@ def main(pid, tier):
         ck.add_tlc(rb, "CorruptBytes/%s (byte-level corruptions of %d traces of the test-suite)" % (bcfg, len(suite)))
         ck.add_tlc(rbn, "CorruptBytes/CorruptBytes_Neg.cfg (negative: a thread may end without OHe)")
         if rb.violated:
-            ck.violation("CorruptBytes violates %s" % rb.violated, {"tlc.out": rb.out[-20000:]}, sig="c12:spec-bytes")
+            raise core.MachineryError("CorruptBytes.tla violates %s\n%s" % (rb.violated, rb.out[-3000:]))
         if rbn.violated != "TruncLosesEnd":
             raise core.MachineryError("negative configuration CorruptBytes_Neg.cfg is not refuted: %r" % rbn.violated)
         ub = {}
@@ -433,35 +467,10 @@ def main(pid, tier):
         ck.case(json.dumps([c["seed"], c["kind"], c["stream"], c["p"], c["q"], c["val"]]),
                 nontrivial=c["kind"] != "none")
         what = "seed %d, %s" % (c["seed"], describe(c))
-        sig = sig_of(seed, c)
-        if er.signal or er.timeout or er.sanitizer:
-            ck.violation("ovniemu %s on a corrupted trace (%s); expected verdict %s\n%s"
-                         % (er.verdict, what, exp, "\n".join(er.last_errors(3))),
-                         bundle_of(c, files, er), sig=sig + ":crash")
-            continue
-        if exp == "reject":
-            if er.finished_ok or er.rc != 1:
-                ck.violation("invalid trace not rejected (%s): ovniemu -l verdict '%s' (exit status %s%s), the "
-                             "specification says reject"
-                             % (what, er.verdict, er.rc, ", printed 'emulation finished ok'" if er.finished_ok else ""),
-                             bundle_of(c, files, er), sig=sig)
-            else:
-                agree += 1
-        elif exp == "ok":
-            if not er.accepted:
-                ck.violation("trace that is still valid after the change was refused (%s): ovniemu -l verdict '%s'\n%s"
-                             % (what, er.verdict, "\n".join(er.last_errors(3))),
-                             bundle_of(c, files, er), sig=sig + ":refused")
-            else:
-                agree += 1
-        elif exp == "unspecified":
-            if er.rc not in (0, 1) or (er.rc == 0) != er.finished_ok:
-                ck.violation("ovniemu ended with %s on a corrupted trace (%s)" % (er.verdict, what),
-                             bundle_of(c, files, er), sig=sig + ":exit")
-            else:
-                agree += 1
-        else:
-            raise core.MachineryError("unknown verdict %r exported by the specification" % exp)
+        if compare(ck, what, exp, er, sig_of(seed, c), lambda: bundle_of(c, files, er)):
+            agree += 1
+    ck.phase("compare")
+
     # byte-level corruptions of the suite traces
     by_id = {t.id: t for t in suite}
     bres = core.pmap(lambda c: run_files(bdir, by_id[c["trace"]].files(c)), bcases) if bcases else []
@@ -471,25 +480,8 @@ def main(pid, tier):
         key = "suite:%s/%s" % (c["kind"], exp)
         table[key] = table.get(key, 0) + 1
         ck.case(json.dumps(["suite", t.name, c["kind"], c["stream"], c["p"], c["q"]]), nontrivial=True)
-        what = "test-suite trace %s, %s" % (t.name, describe(dict(c, q=(c["q"] + t.streams[c["stream"] - 1]["data"][c["p"]]) % 256)
-                                                         if c["kind"] == "hdr" else
-                                                         dict(c, q=t.streams[c["stream"] - 1]["evs"][c["p"] - 2]["clock"] - 1)
-                                                         if c["kind"] == "clock" else c))
-        files = None
-        bad = None
-        if er.signal or er.timeout or er.sanitizer:
-            bad = ("ovniemu %s on a corrupted trace (%s); expected verdict %s" % (er.verdict, what, exp), ":crash")
-        elif exp == "reject" and (er.finished_ok or er.rc != 1):
-            bad = ("invalid trace not rejected (%s): ovniemu -l verdict '%s' (exit status %s), the specification says "
-                   "reject" % (what, er.verdict, er.rc), "")
-        elif exp == "unspecified" and (er.rc not in (0, 1) or (er.rc == 0) != er.finished_ok):
-            bad = ("ovniemu ended with %s on a corrupted trace (%s)" % (er.verdict, what), ":exit")
-        elif exp not in ("reject", "unspecified"):
-            raise core.MachineryError("unknown verdict %r exported by CorruptBytes" % exp)
-        if bad:
-            files = t.files(c)
-            ck.violation(bad[0], bundle_of(c, files, er), sig="c12:suite:" + c["kind"] + bad[1])
-        else:
+        what = "test-suite trace %s, %s" % (t.name, t.describe(c))
+        if compare(ck, what, exp, er, "c12:suite:" + c["kind"], lambda: bundle_of(c, t.files(c), er)):
             agree += 1
     ck.phase("suite_traces")
     ck.cov["traces_validated_against_impl"] = agree
